@@ -169,12 +169,26 @@ func (c *vconn) deliver(chunk []byte) {
 }
 
 func (c *vconn) setDeadlines(kind string, t time.Time, r, w bool) error {
-	c.mu.Lock()
-	defer c.mu.Unlock()
 	arg := "zero"
 	if !t.IsZero() {
 		arg = fmt.Sprintf("%v", t.Sub(c.start))
 	}
+	if expired(t) {
+		// a deadline in the past is how the context watcher aborts I/O: the gate "sd" (if
+		// installed) parks the caller INSIDE the call, before the deadline takes effect
+		c.mu.Lock()
+		_, gated := c.gates["sd"]
+		if gated {
+			c.logf(kind, "%s start (parked inside the call)", arg)
+		}
+		c.mu.Unlock()
+		if gated {
+			c.pass("sd")
+			arg += " end"
+		}
+	}
+	c.mu.Lock()
+	defer c.mu.Unlock()
 	c.logf(kind, "%s", arg)
 	if r {
 		c.rdl = t
